@@ -95,14 +95,24 @@ theorem readOnly_refAlive (env : Nat) (name : String) : ReadOnly (refAlive env n
 
 theorem readOnly_valueOf_go (n : Nat) (o : Obj) : ReadOnly (valueOf.go n o) := by
   induction n generalizing o with
-  | zero => unfold valueOf.go; exact ReadOnly.stop _
+  | zero => cases o <;> (unfold valueOf.go; first | exact ReadOnly.stop _ | exact ReadOnly.pure _)
   | succ n ih =>
     cases o
     case ref e name =>
       unfold valueOf.go
-      exact ReadOnly.bind (readOnly_refValue _ _) fun v => ih v
+      refine ReadOnly.bind (readOnly_refValue _ _) fun v => ?_
+      dsimp only
+      split
+      · refine ReadOnly.bind (ReadOnly.getFrame _) fun _ => ?_
+        refine ReadOnly.bind (ReadOnly.getFrame _) fun _ => ?_
+        split
+        · exact ReadOnly.bind (ReadOnly.stop _) fun _ => ih _
+        · exact ih _
+      · exact ih _
     all_goals (unfold valueOf.go; exact ReadOnly.pure _)
 
-theorem readOnly_valueOf (o : Obj) : ReadOnly (valueOf o) := readOnly_valueOf_go _ _
+theorem readOnly_valueOf (o : Obj) : ReadOnly (valueOf o) := by
+  unfold valueOf
+  exact ReadOnly.bind (fun _ => rfl) fun _ => readOnly_valueOf_go _ _
 
 end Grol.E
